@@ -177,6 +177,8 @@ class Ex:
             v, i = self.addr_one(loc, i, cur1)
             if v is None:
                 v = cur1
+            if v < 0:
+                raise Reject('negative line')      # (rejected on the spot, wherever it stands in the list; too large a number only counts if it is one of the last two)
             vals.append(v)
             if i < len(loc) and loc[i] in ',;':
                 if loc[i] == ';':
